@@ -44,7 +44,7 @@ Record J (s : cst) : Prop := {
   j_canceled : 0 <= canceled s
 }.
 
-Ltac cs := cbn [tgt maxf next pend conns tasks timers failed gfailed bans canceled dials
+Ltac cs := cbn [tgt maxf hasban next pend conns tasks timers failed gfailed bans canceled dials
                 with_tasks with_pend spawn drop_canceled] in *.
 
 Lemma spawn_slots s : slots (spawn s) = slots s + 1.
@@ -86,6 +86,9 @@ Proof.
   constructor; rewrite ?failed_global_slots, ?F1, ?F3, ?F4; lia.
 Qed.
 
+Lemma J_failed_conn s a : slots s + 1 = tgt s -> 0 <= timers s -> 0 <= bans s -> 0 <= canceled s -> J (failed_conn s a).
+Proof. intros. unfold failed_conn. destruct (hasban s); [apply J_failed_to|apply J_failed_global]; assumption. Qed.
+
 Lemma J_step s e : J s -> J (cstep s e).
 Proof.
   intros [H1 H2 H3 H4]. pose proof (zlen_nonneg (conns s)) as Nc. pose proof (zlen_nonneg (tasks s)) as Nt.
@@ -109,12 +112,12 @@ Proof.
   - destruct (task_stage (tasks s) id) as [[| |b]|] eqn:T; try (constructor; assumption).
     pose proof (task_del_len _ _ _ T) as L.
     destruct (zmem id (pend s)).
-    + apply J_failed_to; unfold slots in *; cs; lia.
+    + apply J_failed_conn; unfold slots in *; cs; lia.
     + constructor; unfold slots in *; cs; lia.
   - destruct (conn_addr (conns s) id) as [a|] eqn:C.
     + pose proof (conn_del_len _ _ _ C) as L.
       assert (X : (zlen (conn_del (conns s) id) <? tgt s) = true) by (unfold slots in *; lia).
-      rewrite X. apply J_failed_to; unfold slots in *; cs; lia.
+      rewrite X. apply J_failed_conn; unfold slots in *; cs; lia.
     + destruct (zmem id (pend s)); constructor; unfold slots in *; cs; assumption.
   - destruct (conn_addr (conns s) id) as [a|] eqn:C.
     + pose proof (conn_del_len _ _ _ C) as L. constructor; unfold slots in *; cs; lia.
@@ -141,7 +144,7 @@ Proof.
   - cbn [spawn_n]. apply IH; rewrite ?spawn_slots; cs; try assumption. lia.
 Qed.
 
-Lemma J_init T mf : 0 <= T -> J (cinit T mf).
+Lemma J_init T mf hb : 0 <= T -> J (cinit T mf hb).
 Proof.
   intros HT. unfold cinit. apply spawn_n_J; cs; try lia.
   unfold slots, zlen. cs. cbn [length]. lia.
@@ -155,7 +158,10 @@ Proof.
            end; cs; auto;
     try (destruct (failed_to_fields (with_tasks s (task_del (tasks s) id)) a) as [F1 [F2 _]]; cs; rewrite F1, F2; auto);
     try (destruct (failed_global_fields (with_tasks s (task_del (tasks s) id))) as [F1 [F2 _]]; cs; rewrite F1, F2; auto).
+  all: unfold failed_conn in *.
+  all: try (match goal with |- context [hasban ?x] => destruct (hasban x) end).
   all: try (match goal with |- context [failed_to ?x ?y] => destruct (failed_to_fields x y) as [F1 [F2 _]]; cs; rewrite F1, F2; auto end).
+  all: try (match goal with |- context [failed_global ?x] => destruct (failed_global_fields x) as [F1 [F2 _]]; cs; rewrite F1, F2; auto end).
 Qed.
 
 Lemma tgt_run s evs : tgt (crun s evs) = tgt s /\ maxf (crun s evs) = maxf s.
@@ -167,27 +173,27 @@ Qed.
 Lemma spawn_n_tgt n : forall s, tgt (spawn_n n s) = tgt s /\ maxf (spawn_n n s) = maxf s.
 Proof. induction n as [|k IH]; intros s; [auto|]. cbn [spawn_n]. destruct (IH (spawn s)) as [A B]. cs. auto. Qed.
 
-Lemma tgt_init T mf : tgt (cinit T mf) = T /\ maxf (cinit T mf) = mf.
-Proof. unfold cinit. destruct (spawn_n_tgt (Z.to_nat T) (mkC T mf 0 [] [] [] 0 [] 0 0 0 0)) as [A B]. cs. auto. Qed.
+Lemma tgt_init T mf hb : tgt (cinit T mf hb) = T /\ maxf (cinit T mf hb) = mf.
+Proof. unfold cinit. destruct (spawn_n_tgt (Z.to_nat T) (mkC T mf hb 0 [] [] [] 0 [] 0 0 0 0)) as [A B]. cs. auto. Qed.
 
 (* ------------------------------------------------------------------ the theorems *)
 (* every slot is accounted for, after any sequence of events (an address ban no longer costs one) *)
-Theorem slot_conservation T mf evs :
+Theorem slot_conservation T mf hb evs :
   0 <= T ->
-  let s := crun (cinit T mf) evs in
+  let s := crun (cinit T mf hb) evs in
   zlen (conns s) + zlen (tasks s) + timers s + canceled s = T.
 Proof.
-  intros HT s. pose proof (J_run _ evs (J_init T mf HT)) as [H _ _ _].
-  destruct (tgt_run (cinit T mf) evs) as [A _]. destruct (tgt_init T mf) as [B _].
+  intros HT s. pose proof (J_run _ evs (J_init T mf hb HT)) as [H _ _ _].
+  destruct (tgt_run (cinit T mf hb) evs) as [A _]. destruct (tgt_init T mf hb) as [B _].
   unfold slots in H. subst s. rewrite H, A, B. reflexivity.
 Qed.
 
 (* never more than the target *)
-Theorem conns_le_target T mf evs : 0 <= T -> zlen (conns (crun (cinit T mf) evs)) <= T.
+Theorem conns_le_target T mf hb evs : 0 <= T -> zlen (conns (crun (cinit T mf hb) evs)) <= T.
 Proof.
-  intros HT. pose proof (slot_conservation T mf evs HT) as H. cbv zeta in H.
-  pose proof (J_run _ evs (J_init T mf HT)) as [_ H2 H3 H4].
-  pose proof (zlen_nonneg (tasks (crun (cinit T mf) evs))). lia.
+  intros HT. pose proof (slot_conservation T mf hb evs HT) as H. cbv zeta in H.
+  pose proof (J_run _ evs (J_init T mf hb HT)) as [_ H2 H3 H4].
+  pose proof (zlen_nonneg (tasks (crun (cinit T mf hb) evs))). lia.
 Qed.
 
 Lemma task_stage_set l id st st' : task_stage l id = Some st -> task_stage (task_set l id st') id = Some st'.
@@ -220,20 +226,47 @@ Qed.
 
 (* an outbound connection that closes is replaced by a new request - always, also when the failure
    counter of its address reaches the ban threshold *)
-Theorem replaces_closed T mf evs id a :
+Theorem replaces_closed T mf hb evs id a :
   0 <= T ->
-  let s := crun (cinit T mf) evs in
+  let s := crun (cinit T mf hb) evs in
+  hasban s = true ->
   conn_addr (conns s) id = Some a ->
   let s' := cstep s (Disconnect id) in
   zlen (conns s') = zlen (conns s) - 1 /\ tasks s' = tasks s ++ [(next s + 1, Created)].
 Proof.
-  intros HT s C s'. subst s'. cbn [cstep]. rewrite C.
-  pose proof (J_run _ evs (J_init T mf HT)) as [H1 H2 H3 H4]. fold s in H1, H2, H3, H4.
+  intros HT s Hb C s'. subst s'. cbn [cstep]. rewrite C.
+  pose proof (J_run _ evs (J_init T mf hb HT)) as [H1 H2 H3 H4]. fold s in H1, H2, H3, H4.
   pose proof (conn_del_len _ _ _ C) as L. pose proof (zlen_nonneg (tasks s)) as Nt.
   assert (X : (zlen (conn_del (conns s) id) <? tgt s) = true) by (unfold slots in H1; lia).
-  rewrite X.
+  rewrite X. unfold failed_conn. cs. rewrite Hb.
   match goal with |- context [failed_to ?x ?y] => destruct (failed_to_fields x y) as [_ [_ [_ [_ [F5 [_ [F7 _]]]]]]] end.
   rewrite F5, F7. cs. split; [exact L|reflexivity].
+Qed.
+
+(* whatever the configuration: the closed connection is replaced by a new request or, when the
+   global failure counter is at its threshold (no BanAddress configured), by an armed retry timer *)
+Theorem replaces_closed_any T mf hb evs id a :
+  0 <= T ->
+  let s := crun (cinit T mf hb) evs in
+  conn_addr (conns s) id = Some a ->
+  let s' := cstep s (Disconnect id) in
+  zlen (conns s') = zlen (conns s) - 1 /\
+  zlen (tasks s') + timers s' = zlen (tasks s) + timers s + 1.
+Proof.
+  intros HT s C s'.
+  pose proof (J_run _ evs (J_init T mf hb HT)) as HJ. fold s in HJ.
+  pose proof (J_step s (Disconnect id) HJ) as HJ'. fold s' in HJ'.
+  destruct HJ as [H1 H2 H3 H4]. destruct HJ' as [H1' _ _ _].
+  destruct (tgt_step s (Disconnect id)) as [Ht _]. fold s' in Ht.
+  pose proof (conn_del_len _ _ _ C) as L. pose proof (zlen_nonneg (tasks s)) as Nt.
+  assert (X : (zlen (conn_del (conns s) id) <? tgt s) = true) by (unfold slots in H1; lia).
+  assert (Hc : conns s' = conn_del (conns s) id /\ canceled s' = canceled s).
+  { subst s'. cbn [cstep]. rewrite C, X. unfold failed_conn. cs. destruct (hasban s).
+    - match goal with |- context [failed_to ?x ?y] => destruct (failed_to_fields x y) as [_ [_ [_ [F4 [F5 _]]]]] end.
+      rewrite F4, F5. cs. split; reflexivity.
+    - match goal with |- context [failed_global ?x] => destruct (failed_global_fields x) as [_ [_ [_ [F4 [F5 _]]]]] end.
+      rewrite F4, F5. cs. split; reflexivity. }
+  destruct Hc as [Hc1 Hc2]. unfold slots in H1, H1'. rewrite Hc1, Hc2 in H1'. rewrite Hc1. split; [exact L|lia].
 Qed.
 
 (* ------------------------------------------------------------------ no cancellation on the server's alphabet *)
@@ -331,6 +364,9 @@ Proof.
   intros H. unfold failed_global. destruct (_ >=? _); [|apply P_spawn]; revert H; apply P_ext; reflexivity.
 Qed.
 
+Lemma P_failed_conn s a : P s -> P (failed_conn s a).
+Proof. intros H. unfold failed_conn. destruct (hasban s); [apply P_failed_to|apply P_failed_global]; exact H. Qed.
+
 Lemma P_del s id : P s -> P (with_tasks s (task_del (tasks s) id)).
 Proof.
   intros [A B C D]. constructor; cs.
@@ -372,10 +408,10 @@ Proof.
     + exact D.
   - destruct (task_stage (tasks s) id) as [[| |b]|] eqn:T; try exact HP.
     rewrite (C _ _ (task_stage_In _ _ _ T)) by discriminate.
-    apply P_failed_to. apply P_del. exact HP.
+    apply P_failed_conn. apply P_del. exact HP.
   - destruct (conn_addr (conns s) id) as [a|] eqn:Cn.
     + destruct (_ <? _).
-      * apply P_failed_to. constructor; cs; try assumption.
+      * apply P_failed_conn. constructor; cs; try assumption.
         intros i st Hin Hst. apply zmem_zadd_mono. exact (C _ _ Hin Hst).
       * revert HP. apply P_ext; reflexivity.
     + destruct (zmem id (pend s)); [|exact HP].
@@ -397,47 +433,47 @@ Qed.
 Lemma P_spawn_n n : forall s, P s -> P (spawn_n n s).
 Proof. induction n as [|k IH]; intros s H; [exact H|]. cbn [spawn_n]. apply IH. apply P_spawn. exact H. Qed.
 
-Lemma P_init T mf : P (cinit T mf).
+Lemma P_init T mf hb : P (cinit T mf hb).
 Proof.
   unfold cinit. apply P_spawn_n. constructor; cs; try reflexivity; try (intros i st []). constructor.
 Qed.
 
 (* on the server's alphabet no request is ever canceled ... *)
-Theorem no_cancel T mf evs :
-  server_alphabet (cinit T mf) evs -> canceled (crun (cinit T mf) evs) = 0.
-Proof. intros H. exact (p_canc _ (P_run evs _ (P_init T mf) H)). Qed.
+Theorem no_cancel T mf hb evs :
+  server_alphabet (cinit T mf hb) evs -> canceled (crun (cinit T mf hb) evs) = 0.
+Proof. intros H. exact (p_canc _ (P_run evs _ (P_init T mf hb) H)). Qed.
 
 (* ... hence: when nothing is in flight any more, the target is established *)
-Theorem quiescent_full T mf evs :
-  0 <= T -> server_alphabet (cinit T mf) evs ->
-  let s := crun (cinit T mf) evs in
+Theorem quiescent_full T mf hb evs :
+  0 <= T -> server_alphabet (cinit T mf hb) evs ->
+  let s := crun (cinit T mf hb) evs in
   quiescent s -> zlen (conns s) = T.
 Proof.
-  intros HT Hal s [Q1 Q2]. pose proof (slot_conservation T mf evs HT) as H. cbv zeta in H.
-  fold s in H. pose proof (no_cancel T mf evs Hal) as C. fold s in C.
+  intros HT Hal s [Q1 Q2]. pose proof (slot_conservation T mf hb evs HT) as H. cbv zeta in H.
+  fold s in H. pose proof (no_cancel T mf hb evs Hal) as C. fold s in C.
   rewrite Q1, Q2, C in H. change (zlen (@nil (Z * stage))) with 0 in H. lia.
 Qed.
 
 (* ... and as long as the target is not established the manager is still working on it: a request is
    in flight or a retry timer is armed ("keeps asking for addresses and dialling") *)
-Theorem still_trying T mf evs :
-  0 <= T -> server_alphabet (cinit T mf) evs ->
-  let s := crun (cinit T mf) evs in
+Theorem still_trying T mf hb evs :
+  0 <= T -> server_alphabet (cinit T mf hb) evs ->
+  let s := crun (cinit T mf hb) evs in
   zlen (conns s) < T -> tasks s <> [] \/ 0 < timers s.
 Proof.
-  intros HT Hal s Hlt. pose proof (slot_conservation T mf evs HT) as H. cbv zeta in H. fold s in H.
-  pose proof (no_cancel T mf evs Hal) as C. fold s in C.
+  intros HT Hal s Hlt. pose proof (slot_conservation T mf hb evs HT) as H. cbv zeta in H. fold s in H.
+  pose proof (no_cancel T mf hb evs Hal) as C. fold s in C.
   destruct (tasks s) as [|t l] eqn:E; [right|left; discriminate].
   change (zlen (@nil (Z * stage))) with 0 in H. lia.
 Qed.
 
 (* for arbitrary callers of the public Disconnect / Remove: the same with the given-up slots counted *)
-Theorem quiescent_full_any T mf evs :
+Theorem quiescent_full_any T mf hb evs :
   0 <= T ->
-  let s := crun (cinit T mf) evs in
+  let s := crun (cinit T mf hb) evs in
   quiescent s -> zlen (conns s) = T - canceled s.
 Proof.
-  intros HT s [Q1 Q2]. pose proof (slot_conservation T mf evs HT) as H. cbv zeta in H.
+  intros HT s [Q1 Q2]. pose proof (slot_conservation T mf hb evs HT) as H. cbv zeta in H.
   fold s in H. rewrite Q1, Q2 in H. change (zlen (@nil (Z * stage))) with 0 in H. lia.
 Qed.
 
@@ -457,26 +493,26 @@ Proof.
 Qed.
 
 Example witness_facts :
-  let s := crun (cinit 2 25) witness in
+  let s := crun (cinit 2 25 true) witness in
   quiescentb s = true /\ zlen (conns s) = 2 /\ bans s = 1 /\ canceled s = 0 /\ dials s = 27.
 Proof. vm_compute. repeat split. Qed.
 
-Example witness_alphabet : server_alphabet (cinit 2 25) (witness ++ [Disconnect 2; Registered 28]).
+Example witness_alphabet : server_alphabet (cinit 2 25 true) (witness ++ [Disconnect 2; Registered 28]).
 Proof. vm_compute. repeat split. Qed.
 
 Example witness_script :
-  let s := sfinal (sinit 2 25) (flat_map (fun _ => [SG 0; SF 0]) (seq 0 25) ++ [SG 1; SK 1; SG 1; SK 1]) in
+  let s := sfinal (sinit 2 25 true) (flat_map (fun _ => [SG 0; SF 0]) (seq 0 25) ++ [SG 1; SK 1; SG 1; SK 1]) in
   quiescentb s = true /\ zlen (conns s) = 2 /\ dials s = 27 /\ bans s = 1.
 Proof. vm_compute. repeat split. Qed.
 
 (* a canceled request: target 1, the request is disconnected while it dials, its success is ignored *)
 Example remove_example :
-  let s := crun (cinit 2 25) [Registered 1; Registered 2; AddrOk 1 0; DialOk 1; Remove 1; AddrOk 2 0; DialOk 2] in
+  let s := crun (cinit 2 25 true) [Registered 1; Registered 2; AddrOk 1 0; DialOk 1; Remove 1; AddrOk 2 0; DialOk 2] in
   quiescentb s = true /\ zlen (conns s) = 1 /\ canceled s = 1.
 Proof. vm_compute. repeat split. Qed.
 
 Example cancel_example :
-  let s := crun (cinit 1 25) [Registered 1; AddrOk 1 0; Disconnect 1; DialOk 1] in
+  let s := crun (cinit 1 25 true) [Registered 1; AddrOk 1 0; Disconnect 1; DialOk 1] in
   quiescentb s = true /\ zlen (conns s) = 0 /\ canceled s = 1.
 Proof. vm_compute. repeat split. Qed.
 
@@ -495,6 +531,13 @@ Proof.
   destruct (IH (cstep s (Registered id))) as [evs E]. exists (Registered id :: evs). rewrite E. reflexivity.
 Qed.
 
+Lemma burst_run k sel f : forall s n, exists evs, fst (burst k sel f s n) = crun s evs.
+Proof.
+  induction k as [|k IH]; intros s n; [exists []; reflexivity|].
+  cbn [burst]. destruct (first_stage (tasks s) sel) as [id|]; [|exists []; reflexivity].
+  destruct (IH (cstep s (f s id n)) (n + 1)) as [evs E]. exists (f s id n :: evs). rewrite E. reflexivity.
+Qed.
+
 Lemma settle_run s : exists evs, settle s = crun s evs.
 Proof.
   unfold settle. destruct (fire_all_run (Z.to_nat (timers s)) s) as [e1 E1]. rewrite E1.
@@ -506,7 +549,10 @@ Lemma sstep_run x e : exists evs, core (fst (sstep x e)) = crun (core x) evs.
 Proof.
   assert (G : forall ev, exists evs, settle (cstep (core x) ev) = crun (core x) evs).
   { intros ev. destruct (settle_run (cstep (core x) ev)) as [l E]. exists (ev :: l). rewrite E. reflexivity. }
-  destruct e as [a| |a|a|k| | |k]; cbn [sstep].
+  assert (GB : forall k sel f, exists evs, settle (fst (burst k sel f (core x) 0)) = crun (core x) evs).
+  { intros k sel f. destruct (burst_run k sel f (core x) 0) as [l1 E1]. rewrite E1.
+    destruct (settle_run (crun (core x) l1)) as [l2 E2]. exists (l1 ++ l2). rewrite crun_app. exact E2. }
+  destruct e as [a| |a|a|k| | |k|n| |a]; cbn [sstep].
   - destruct (first_stage _ _); [apply G|exists []; reflexivity].
   - destruct (first_stage _ _); [apply G|exists []; reflexivity].
   - destruct (first_stage _ _); [apply G|exists []; reflexivity].
@@ -518,15 +564,18 @@ Proof.
     destruct (tasks (core x)) as [|[id st] [|t2 l]]; [exists []; reflexivity|apply G|exists []; reflexivity].
   - destruct (conns (core x)) as [|c l]; [exists []; reflexivity|].
     destruct (nth_error _ _) as [[id b]|]; [apply G|exists []; reflexivity].
+  - destruct (_ =? 0); [exists []; reflexivity|apply GB].
+  - destruct (_ =? 0); [exists []; reflexivity|apply GB].
+  - destruct (_ =? 0); [exists []; reflexivity|apply GB].
 Qed.
 
 (* every state the correspondence check visits is a state of the model the theorems speak about *)
-Theorem script_states_reachable T mf sevs :
-  exists evs, core (fold_left (fun x e => fst (sstep x e)) sevs (sinit T mf)) = crun (cinit T mf) evs.
+Theorem script_states_reachable T mf hb sevs :
+  exists evs, core (fold_left (fun x e => fst (sstep x e)) sevs (sinit T mf hb)) = crun (cinit T mf hb) evs.
 Proof.
   induction sevs as [|e l IH] using rev_ind.
-  - simpl. destruct (settle_run (cinit T mf)) as [evs E]. exists evs. exact E.
+  - simpl. destruct (settle_run (cinit T mf hb)) as [evs E]. exists evs. exact E.
   - rewrite fold_left_app. cbn [fold_left]. destruct IH as [evs E].
-    destruct (sstep_run (fold_left (fun x e => fst (sstep x e)) l (sinit T mf)) e) as [e2 E2].
+    destruct (sstep_run (fold_left (fun x e => fst (sstep x e)) l (sinit T mf hb)) e) as [e2 E2].
     exists (evs ++ e2). rewrite crun_app, <- E. exact E2.
 Qed.
